@@ -52,7 +52,7 @@ MinIntT == Bin("-", NegT(A("mx")), A("i1"))        \* (-7FFF...F - 1): the only 
 ValSrc == [v1 |-> Bin("+", A("i1"), Bin("*", A("i2"), A("i3"))),
            v2 |-> Bin("-", A("i7"), Bin("-", A("i2"), A("i1"))),
            v3 |-> Bin("*", A("f15"), A("i2")),
-           v4 |-> Fun("STRLEN", <<A("sab")>>),
+           v4 |-> Fun("BITCNT", <<A("i255")>>),
            v5 |-> Bin("/", A("i1"), A("i0"))]
 
 Atoms == [val |-> [tok \in DOMAIN AtomDefs |-> AtomValue(AtomDefs[tok])], valsrc |-> ValSrc]
@@ -60,8 +60,8 @@ Atoms == [val |-> [tok \in DOMAIN AtomDefs |-> AtomValue(AtomDefs[tok])], valsrc
 Ev(t) == EvalT(t, Atoms)
 
 \* ---- operand alphabets --------------------------------------------------------------------------------
-IntOpsQ == {A("i0"), A("i1"), A("i3"), NegT(A("i1")), A("p31"), A("p32"), A("mx"), MinIntT, A("i63"), A("i64"), NegT(A("i5"))}
-IntOpsT == IntOpsQ \cup {A("i2"), A("i7"), A("i32"), A("i33"), A("i255"), A("p31m"), A("p32m"), A("p62"), NegT(A("p31")), A("h5a"),
+IntOpsQ == {A("i0"), A("i1"), A("i3"), NegT(A("i1")), A("p31"), A("p32"), A("mx"), MinIntT, A("i63"), A("i64"), NegT(A("i5")), A("i32")}
+IntOpsT == IntOpsQ \cup {A("i2"), A("i7"), A("i33"), A("i255"), A("p31m"), A("p32m"), A("p62"), NegT(A("p31")), A("h5a"),
                          NegT(A("i2")), A("i65"), A("dmx")}
 FltOpsQ == {A("f0"), A("f15"), A("f2"), NegT(A("f2")), A("f3"), A("fh")}
 FltOpsT == FltOpsQ \cup {A("f1"), NegT(A("f15")), A("f25"), A("f4"), NegT(A("f3")), A("fbig"), A("f1025")}
@@ -116,9 +116,11 @@ AliasChars(tt) == Unparse(tt.l, TRUE, FALSE) \o <<" ">> \o (IF tt.o = "!=" THEN 
 
 CaseOf(md, tt) ==
   IF md = "alias"
-  THEN [src |-> md, op |-> tt.o, cs |-> AliasChars(tt), o |-> Observable(ApplyBin(Canon(tt.o), Ev(tt.l), Ev(tt.r))), depth |-> 2]
+  THEN [src |-> md, op |-> tt.o, cs |-> AliasChars(tt), o |-> Observable(ApplyBin(Canon(tt.o), Ev(tt.l), Ev(tt.r))), depth |-> 2,
+        dev |-> IF tt.o = "!=" THEN {"alias_noteq"} ELSE {}]
   ELSE [src |-> md, op |-> IF tt.k \in {"B", "U"} THEN tt.o ELSE IF tt.k = "F" THEN tt.f ELSE "atom",
-        cs |-> Unparse(tt, FALSE, FALSE), o |-> Observable(Ev(tt)), depth |-> Depth(tt)]
+        cs |-> Unparse(tt, FALSE, FALSE), csp |-> Unparse(tt, TRUE, FALSE), o |-> Observable(Ev(tt)), depth |-> Depth(tt),
+        dev |-> Devs(tt, Atoms)]
 
 \* ---- state machine --------------------------------------------------------------------------------------
 VARIABLES mode, sel, t
